@@ -69,8 +69,8 @@ Definition c_stats (c : cache) : N * N :=
 
 (* ---------- wire format: tcp_operation_header = 10 little-endian 32-bit words (40 bytes) ----------
    Length fields and generations are unbounded N in the model (uint32 / uint64 in the code, assumed not to
-   overflow); the one place where the code's uint32 arithmetic matters for acceptance - the length sum
-   check of the store request - keeps its wrap explicitly. *)
+   overflow); the length sum check of the store request is evaluated in 64 bits by the code (since /repo b527961:
+   three 32-bit fields cannot overflow it), i.e. it is the exact integer comparison. *)
 Definition le32 (v : N) : bytes :=
   [v mod 256; (v / 256) mod 256; (v / 65536) mod 256; (v / 16777216) mod 256].
 Definition de32 (a b c d : N) : N := a + 256 * b + 65536 * c + 16777216 * d.
@@ -162,7 +162,7 @@ Definition srv_fetch (now : Z) (h : hdr) (p : bytes) (c : cache) : hdr * bytes :
 
 Definition srv_store (h : hdr) (p : bytes) (c : cache) : hdr * bytes * cache :=
   let kl := h_u2 h in let dlen := h_u3 h in let tl := h_u4 h in
-  if negb ((kl + dlen + tl) mod W32 =? h_size h) || (kl =? 0) then (hdr0 op_error, [], c)
+  if negb (kl + dlen + tl =? h_size h) || (kl =? 0) then (hdr0 op_error, [], c)
   else
     match load_triggers [] (take tl (drop (kl + dlen) p)) with
     | None => (hdr0 op_error, [], c)
